@@ -52,7 +52,7 @@ def generate(loader: Loader, check: Check, replay_on=True, only_pure=False):
     check.under_contract(loader, f_cast, f_prom, VT.methods["__eq__"], VT.methods["__lt__"], VT.methods["__gt__"],
                          VT.methods["__le__"], VT.methods["__ge__"], VT.methods["signed"].getter,
                          VT.methods["signed"].setter, VT.methods["bit_width"].getter, VT.methods["bit_width"].setter)
-    groups = integer_groups(loader)[:1] if only_pure else integer_groups(loader)
+    groups = integer_groups(loader)[:2] if only_pure else integer_groups(loader)
     inputs = {"a_s", "a_w", "b_s", "b_w"}
 
     def rp(kind, ga, gb):
@@ -219,6 +219,10 @@ def generate(loader: Loader, check: Check, replay_on=True, only_pure=False):
             check.ob(f"ValueType.{meth}#modifies", pi, pc, len(p.ctx.pre_writes()) == 0)
 
 
+def generate_mutant(loader, sink):
+    generate(loader, sink, replay_on=False, only_pure=True)
+
+
 def vtg(loader):
     return loader.load(M_VT).globals["VTGroup"]
 
@@ -311,10 +315,7 @@ def run(check: Check):
                  "float groups are outside the property")
     generate(loader, check)
     audit(loader, check)
-    run_mutants(check, MUTANTS, lambda ld, sink: generate(ld, sink, replay_on=False, only_pure=True))
-    surv = [m for m in check.mutants if m.get("killed") is False]
-    if surv:
-        check.notes.append(f"checker-strength gap: surviving mutants {[m['mutant'] for m in surv]}")
+    run_mutants(check, MUTANTS, "contracts.c04", "generate_mutant")
     return check.finish(
         level="proof",
         rule="one obligation per (function, group instance, feasible path, clause); widths symbolic Int>=1, "
